@@ -478,6 +478,51 @@ def big_scenario(seed, index, profile):
     return scn
 
 
+def warm_many_arms_scenario(rng, g):
+    """24 arms, the first few trained, every other arm cold with its own feature vector: distances of every pair matter,
+    whatever block size a pairwise-distance routine uses"""
+    n_arms = 24
+    arms = (g.arms + g.spare + [9000 + i for i in range(n_arms)])[:n_arms] if g.ltype != "str" else ["w%02d" % i for i in range(n_arms)]
+    if g.ltype == "float":
+        arms = [0.25 * (i + 1) for i in range(n_arms)]
+    g.arms = list(arms)
+    g.cfg["arms"] = list(arms)
+    trained = arms[:4]
+    n = 16
+    d = [trained[i % 4] for i in range(n)]
+    r = [gen_reward(rng, g.lpk, g.binz) for _ in d]
+    if g.lpk != "thompson":
+        r = [x + 2 * trained.index(a) for a, x in zip(d, r)]
+    c = [gen_row(rng, g.d) for _ in d] if g.contextual else None
+    # directions spread over the half plane; cold arm i sits next to trained arm i % 4
+    import math
+    feats = []
+    for i, a in enumerate(arms):
+        ang = 0.7 * (i % 4) + (0.02 * (i // 4) if i >= 4 else 0.0)
+        feats.append([a, [round(math.cos(ang), 6), round(math.sin(ang), 6)]])
+    q = {"op": "pexp", "c": [gen_row(rng, g.d)] if g.contextual else None}
+    ops = [{"op": "fit", "d": d, "r": r, "c": c}, {"op": "warm", "feats": feats, "q": rng.choice([0.5, 1.0, 0.25])}, q,
+           {"op": "pred", "c": q["c"]}]
+    return {"cfg": g.cfg, "ops": ops}
+
+
+def dead_feature_scenario(rng, g):
+    """two features, the second never switched on in training, a regulariser of 2^-60: every arm's A is diagonal with a
+    tiny entry, its inverse exact and huge there (condition number far beyond 1/eps, yet nothing is singular and nothing
+    is rounded): queries that switch the feature on see the huge variance / bonus"""
+    g.d = 2
+    g.cfg["lp"]["lam"] = 2.0 ** -60
+    g.cfg["lp"].pop("scale", None)
+    n = rng.choice([4, 7, 10])
+
+    def batch(k):
+        d = [rng.choice(g.arms) for _ in range(k)]
+        return {"d": d, "r": [gen_reward(rng, g.lpk, g.binz) for _ in d], "c": [[float(rng.randint(0, 4)), 0.0] for _ in d]}
+    q = {"op": "pexp", "c": [[1.0, 1.0], [2.0, 0.0], [0.0, 3.0]]}
+    ops = [dict(batch(n), op="fit"), dict(q), dict(batch(3), op="pfit"), dict(q), {"op": "pred", "c": q["c"]}]
+    return {"cfg": g.cfg, "ops": ops}
+
+
 def gen_scenario(seed, index, profile):
     if profile.get("big_rate", 0.02) > 0 and random.Random("%s/%s/bigp/%s" % (seed, profile.get("name", ""), index)).random() < \
             profile.get("big_rate", 0.02):
@@ -506,6 +551,10 @@ def gen_scenario(seed, index, profile):
         return scn
     if profile.get("warm_readd") and index % 12 == 5 and g.npk is None and g.lpk in WARM_OK and len(g.arms + g.spare) >= 3:
         return warm_readd_scenario(rng, g)
+    if profile.get("warm_readd") and index % 12 == 9 and g.npk is None and g.lpk in WARM_OK:
+        return warm_many_arms_scenario(rng, g)
+    if profile.get("dead_feature") and index % 40 == 17 and g.npk is None and g.lpk in LIN_KINDS:
+        return dead_feature_scenario(rng, g)
     return g.build()
 
 
